@@ -783,6 +783,17 @@ pub fn cmd_spec(args: &[String]) {
                         let neg = g.r.chance(1, 2);
                         v.insert(pos, Ast::Look { ahead: true, neg, body: Box::new(body) });
                     }
+                    // sometimes a factor (a character, the dot, a class, a non-capturing group) carries ? ?? * or *?
+                    if g.r.chance(1, 3) {
+                        let idx: Vec<usize> = v.iter().enumerate().filter(|(_, a)| matches!(a, Ast::Char(_) | Ast::Any | Ast::VClass(_) | Ast::NonCap(_))).map(|(i, _)| i).collect();
+                        if !idx.is_empty() {
+                            let i = *g.r.pick(&idx);
+                            let body = v[i].clone();
+                            let (min, max) = *g.r.pick(&[(0, None), (0, Some(1)), (1, None)]);
+                            let greedy = g.r.chance(2, 3);
+                            v[i] = Ast::Quant { body: Box::new(body), min, max, greedy };
+                        }
+                    }
                     alts.push(if v.len() == 1 { v.pop().unwrap() } else { Ast::Seq(v) });
                 }
                 (Ast::Alt(alts), f)
